@@ -20,6 +20,11 @@
 //     Cases the statement leaves open (duplicates, empty signature array, nothing to sign) are
 //     checked conditionally only.
 //
+// Life-cycle leg (lifecycle.go): the same cases and oracle on wallets with a history (encrypted at
+// creation or later, addresses generated on either chain while plain / encrypted without password /
+// inside GuardUpdate, scanned, saved and loaded, cloned, decrypted) that sign directly, inside
+// GuardView with the password, or on the copy returned by Unlock.
+//
 // Node leg (nodeleg.go): the same oracle on Visor.WalletSignTransaction of a real visor with a real
 // wallet service, on a chain where the wallets' addresses own unspent outputs; single calls and
 // multi-step sequences (sign a subset, resubmit the partially signed result).
@@ -70,6 +75,14 @@ type fixture struct {
 	id       string
 	password []byte
 	crypto   string
+
+	// wallets with a history (lifecycle.go; node leg: addresses added after encryption)
+	life   bool                      // function-level life-cycle leg
+	state  string                    // final state and how the signing call reaches the secrets
+	script []string                  // the operations the wallet went through, in order
+	birth  map[cipher.Address]string // "<chain>.<wallet state the address was generated in>"
+	// sign == nil: wallet.SignTransaction(w, ...)
+	sign func(txn *coin.Transaction, idx []int, ux []coin.UxOut) (*coin.Transaction, error)
 }
 
 type group struct {
@@ -208,6 +221,9 @@ type tcase struct {
 func (c *tcase) pfx() string {
 	if c.node != nil {
 		return "node."
+	}
+	if c.fx != nil && c.fx.life {
+		return "life."
 	}
 	return ""
 }
@@ -369,6 +385,11 @@ func genCase(rng *rand.Rand, g *group) *tcase {
 	return c
 }
 
+// baseName is the wallet kind of a fixture name ("bip44-locked", "bip44-enc" -> "bip44")
+func baseName(name string) string {
+	return strings.TrimSuffix(strings.TrimSuffix(name, "-locked"), "-enc")
+}
+
 func deepCopyTxn(t *coin.Transaction) *coin.Transaction {
 	c := *t
 	c.Sigs = append([]cipher.Sig(nil), t.Sigs...)
@@ -432,9 +453,11 @@ func main() {
 	})
 
 	t1 := time.Now() // development timing only (printed on request, decides nothing)
+	lifecycleLeg(r)
+	t2 := time.Now()
 	nodeLeg(r)
 	if os.Getenv("C13_TIMING") != "" {
-		fmt.Fprintf(os.Stderr, "function leg %v, node leg %v\n", t1.Sub(t0), time.Since(t1))
+		fmt.Fprintf(os.Stderr, "function leg %v, life-cycle leg %v, node leg %v\n", t1.Sub(t0), t2.Sub(t1), time.Since(t2))
 	}
 
 	for _, k := range []string{"must_fail.xpub", "must_fail.encrypted", "must_fail.missing_key", "must_fail.index_out_of_range",
@@ -449,6 +472,25 @@ func main() {
 		r.Floor("ok."+k, int64(r.Pick(100, 1000)))
 	}
 	r.Floor("ok.bip44_change_chain_input", int64(r.Pick(20, 200)))
+	// life-cycle leg: every wallet kind signed after a history, in every way of reaching the secrets, and inputs
+	// owned by addresses of every (chain, wallet state at generation) class were signed and verified
+	for k, q := range map[string]int{
+		"life.groups": 40, "life.signatures.verified_refsecp": 600,
+		"life.ok.wallet.deterministic": 60, "life.ok.wallet.bip44": 60, "life.ok.wallet.collection": 60,
+		"life.ok.state.plain": 40, "life.ok.state.decrypted": 10, "life.ok.state.encrypted/guard-view": 60, "life.ok.state.encrypted/unlocked-copy": 20,
+		"life.must_fail.encrypted": 40, "life.must_fail.xpub": 25, "life.must_fail.missing_key": 80,
+		"life.history.with.save+load": 60, "life.history.with.lock": 25, "life.history.with.view": 10, "life.history.with.decrypt": 5,
+		"life.history.with.generate-change@locked": 4, "life.history.with.scan@locked": 1,
+		"life.signed.bip44.chg.locked": 12, "life.signed.bip44.ext.locked": 6, "life.signed.bip44.chg.plain": 12, "life.signed.bip44.chg.created": 12,
+		"life.signed.deterministic.ext.guarded": 25, "life.signed.collection.ext.guarded": 25,
+	} {
+		r.Floor(k, int64(r.Pick(q, 12*q)))
+	}
+	// node leg: inputs owned by addresses the encrypted wallets generated after encryption
+	for k, q := range map[string]int{"node.signed.bip44.chg.locked": 8, "node.signed.bip44.ext.locked": 8, "node.signed.bip44.chg.created": 25,
+		"node.signed.deterministic.ext.guarded": 15, "node.signed.collection.ext.guarded": 30} {
+		r.Floor(k, int64(r.Pick(q, 6*q)))
+	}
 	// node leg
 	for k, q := range map[string]int{
 		"node.accepted.partially_signed": 250, "node.accepted.unsigned": 250,
@@ -462,9 +504,10 @@ func main() {
 		r.Floor(k, int64(r.Pick(q, 6*q)))
 	}
 	r.Finish("per case a wallet kind (deterministic / bip44 ext+change / collection / xpub / locked variants), 1..8 inputs each owned by the wallet or by a foreign key, a signature array (empty, all-null, partially pre-signed with valid or garbage signatures, full) and an index list (none, subset, exactly the unsigned set, duplicate, out of range, over-long, pointing at a signed input) are drawn from the seed; a case is distinct by (wallet kind, ownership bitmap, pre-signed bitmap, index list)",
-		"node leg: Visor.WalletSignTransaction of a real visor + wallet service on a harness-made chain (genesis, a distribution block giving every wallet address and six harness keys unspent outputs, one later block); wallets deterministic / bip44 (external+change) / collection / xpub and three encrypted ones (sha256-xor, scrypt-chacha20poly1305-insecure) addressed with the right / no / a wrong password; transactions are fully valid and spendable (exact coins, burn paid, 0.001 grid), unsigned, partially pre-signed by the real owners, or fully signed; sequences sign a named subset first and resubmit the partially signed result (remaining indexes named, or none; one wallet or two wallets in turn) until complete, then submit the complete transaction again",
+		"life-cycle leg: the same cases and oracle on wallets that have a history before they sign: created plain or encrypted, then a seeded sequence of lock / decrypt / GuardView / generate addresses (bip44: external or change chain; on a plain wallet, on an encrypted wallet without the password, or inside GuardUpdate) / scan ahead / add keys (collection) / serialise+load / clone; the wallet then signs directly, inside GuardView with its password, or on the copy returned by Unlock, and the encrypted wallet without password must refuse; counters life.signed.<kind>.<chain>.<state at generation> say which addresses owned the verified inputs",
+		"node leg: Visor.WalletSignTransaction of a real visor + wallet service on a harness-made chain (genesis, a distribution block giving every wallet address and six harness keys unspent outputs, one later block); wallets deterministic / bip44 (external+change) / collection / xpub and three encrypted ones (sha256-xor, scrypt-chacha20poly1305-insecure; each generated further addresses through Service.NewAddresses after it was encrypted: bip44 on both chains without the password, the others with it) addressed with the right / no / a wrong password; transactions are fully valid and spendable (exact coins, burn paid, 0.001 grid), unsigned, partially pre-signed by the real owners, or fully signed; sequences sign a named subset first and resubmit the partially signed result (remaining indexes named, or none; one wallet or two wallets in turn) until complete, then submit the complete transaction again",
 		"node leg: the node must sign every such transaction that is not fully signed when the wallet is usable and owns the requested (or all unsigned) inputs, and must refuse fully signed transactions, watch-only wallets, encrypted wallets without the right password, unknown wallet ids and requests for inputs whose key the wallet lacks; an invalid signature already on the transaction, a password given for an unencrypted wallet, an empty signature array and duplicate indexes are left open (conditional clauses only), since the node validates the transaction before signing",
-		"entry ownership is read from the wallet under test (derivation correctness is C17); signature validity is decided by lib/refsecp (verify and recover), addresses by cipher.AddressFromPubKey",
+		"entry ownership is read from the wallet under test (derivation correctness is C17): address and public key from the wallet as it is when it signs, the secret key (needed only to pre-sign validly) from the unencrypted wallet or, for wallets that grew while encrypted, from a never-encrypted wallet of the same seed; signature validity is decided by lib/refsecp (verify and recover), addresses by cipher.AddressFromPubKey",
 		"index lists with duplicates, an empty signature array, and 'nothing left to sign' are not defined by the statement: only the conditional clauses are checked there",
 		"transactions whose signature array length differs from the input count are not generated (Visor rejects them before the wallet is reached)")
 }
@@ -481,6 +524,8 @@ func evalCase(r *vf.Run, g *group, c *tcase, gi, ci int) (result *coin.Transacti
 	panicked, pmsg, pframe := vf.Recover(func() {
 		if c.node != nil {
 			res, _, err = c.node.v.WalletSignTransaction(c.wltID, c.pw, c.txn, idxIn)
+		} else if c.fx.sign != nil {
+			res, err = c.fx.sign(c.txn, idxIn, c.ux)
 		} else {
 			res, err = wallet.SignTransaction(c.fx.w, c.txn, idxIn, c.ux)
 		}
@@ -573,6 +618,10 @@ func evalCase(r *vf.Run, g *group, c *tcase, gi, ci int) (result *coin.Transacti
 	}
 	desc := fmt.Sprintf("%s own=%s sigs=%s/%s idx=%v/%s", c.fx.name, own, sigNames[c.sc], sg, c.idx, idxNames[c.ic])
 	leg := "function"
+	if c.fx.life {
+		leg = "lifecycle"
+		desc = "life " + desc + " state=" + c.fx.state
+	}
 	if c.node != nil {
 		leg = "node"
 		desc = "node " + desc + " pw=" + c.pwClass
@@ -605,6 +654,10 @@ func evalCase(r *vf.Run, g *group, c *tcase, gi, ci int) (result *coin.Transacti
 			"result": txnHex(res), "sign_indexes": c.idx, "uxouts": ux, "wallet": string(ws)}
 		if err != nil {
 			m["error"] = err.Error()
+		}
+		if len(c.fx.script) > 0 {
+			m["wallet_history"] = c.fx.script
+			m["wallet_state"] = c.fx.state
 		}
 		if c.node != nil {
 			m["leg"] = "node: Visor.WalletSignTransaction(" + c.wltID + ")"
@@ -698,6 +751,10 @@ func evalCase(r *vf.Run, g *group, c *tcase, gi, ci int) (result *coin.Transacti
 				bad = true
 			} else {
 				r.Count(pfx+"signatures.verified_refsecp", 1)
+				if b, ok := c.fx.birth[c.ux[i].Body.Address]; ok {
+					// which kind of address (chain, wallet state it was generated in) owned the signed input
+					r.Count(pfx+"signed."+baseName(c.fx.name)+"."+b, 1)
+				}
 			}
 		default:
 			if !res.Sigs[i].Null() {
@@ -719,7 +776,10 @@ func evalCase(r *vf.Run, g *group, c *tcase, gi, ci int) (result *coin.Transacti
 			full = false
 		}
 	}
-	base := strings.TrimSuffix(strings.TrimSuffix(c.fx.name, "-locked"), "-enc")
+	base := baseName(c.fx.name)
+	if c.fx.life {
+		r.Count("life.ok.state."+c.fx.state, 1)
+	}
 	if c.node != nil {
 		if c.sc == sigPartial {
 			r.Count("node.accepted.partially_signed", 1)
